@@ -3,6 +3,7 @@ package pipe
 import (
 	"fmt"
 	"os"
+	"path/filepath"
 	"sort"
 	"strings"
 	"testing"
@@ -20,8 +21,10 @@ type c6Gen struct {
 	Mode   string `json:"mode"`
 	Alias  bool   `json:"alias,omitempty"`
 	Defers int    `json:"defers,omitempty"` // callbacks registered per GenerateType call
-	Nested bool   `json:"nested,omitempty"` // the first callback registers further callbacks from inside
-	Peek   bool   `json:"peek,omitempty"`   // asks Context.Doc about the types of imported packages before rendering
+	// DeferOnly: GenerateType renders nothing itself, everything comes from the callbacks (which must still reach the file)
+	DeferOnly bool `json:"deferonly,omitempty"`
+	Nested    bool `json:"nested,omitempty"` // the first callback registers further callbacks from inside
+	Peek      bool `json:"peek,omitempty"`   // asks Context.Doc about the types of imported packages before rendering
 	// Returns: what GenerateType returns: "" (nil for every type) | skip-some | ignore-some | wrapignore-some (for every second type by name);
 	// whatever it returns, every enabled type must still be handed over exactly once
 	Returns string `json:"returns,omitempty"`
@@ -46,6 +49,7 @@ func genC06(t *rapid.T) c6Case {
 	for _, n := range names {
 		g := c6Gen{Name: n, Mode: "fixed", Alias: rapid.Bool().Draw(t, "alias"), Defers: rapid.IntRange(0, 2).Draw(t, "defers")}
 		g.Nested = g.Defers > 0 && rapid.IntRange(0, 2).Draw(t, "nesteddefer") == 0
+		g.DeferOnly = g.Defers > 0 && rapid.IntRange(0, 3).Draw(t, "deferonly") == 0
 		g.Peek = rapid.IntRange(0, 2).Draw(t, "peek") == 0
 		g.Returns = rapid.SampledFrom([]string{"", "", "skip-some", "ignore-some", "wrapignore-some"}).Draw(t, "returns")
 		if rapid.IntRange(0, 2).Draw(t, "mode") == 0 {
@@ -111,6 +115,9 @@ func (c *c6Case) scripts() []*script.Script {
 	for _, g := range c.Gens {
 		s := &script.Script{Name: g.Name, Mode: g.Mode, Alias: g.Alias}
 		s.Default = script.Action{Render: []script.Piece{{Kind: "block", Text: "\nvar _$G_$T = 0\n"}}}
+		if g.DeferOnly {
+			s.Default.Render = nil
+		}
 		if g.Peek {
 			s.Default.Render = append([]script.Piece{{Kind: "docforeign"}}, s.Default.Render...)
 		}
@@ -239,6 +246,20 @@ func oracleC06(c c6Case) error {
 	for id, who := range registeredIDs {
 		if ranIDs[id] != 1 {
 			return fmt.Errorf("Defer callback #%d (%s) ran %d times", id, who, ranIDs[id])
+		}
+	}
+	// "before its file is written": what a callback rendered is in the generator's file
+	for _, call := range res.Calls {
+		if call.Kind != "defer" || strings.TrimSpace(call.Rendered) == "" {
+			continue
+		}
+		fn := filepath.Join(dir, filepath.FromSlash(strings.TrimPrefix(strings.TrimPrefix(call.Pkg, c.Mod.Path), "/")), "zz_generated."+call.Gen+".go")
+		b, err := os.ReadFile(fn)
+		if err != nil {
+			return fmt.Errorf("a Defer callback of %s in %s rendered %q, but the generator's file does not exist afterwards: %v", call.Gen, call.Pkg, call.Rendered, err)
+		}
+		if !strings.Contains(string(b), strings.TrimSpace(call.Rendered)) {
+			return fmt.Errorf("a Defer callback of %s in %s rendered %q, which is not in %s (the callback ran after the file was written, or its output was dropped)", call.Gen, call.Pkg, call.Rendered, fn)
 		}
 	}
 	return nil
